@@ -81,7 +81,7 @@ def write_input_file(case, path=None, names=None, layout='case'):
 
 
 def execute(case, budget=6000, cpu_s=3.0, sched=None, names=None, prompt=None, refuse_at='case',
-            layout='case', requested=None, store=None):
+            layout='case', requested=None, store=None, again=None):
     """Run one case at solver level (real Solver, real InputStore on a real file).
     store: an existing InputStore to solve on again (histories on one store); its current content is what is supplied."""
     classes, enums = synth.build_classes(case['world'])
@@ -117,6 +117,11 @@ def execute(case, budget=6000, cpu_s=3.0, sched=None, names=None, prompt=None, r
         s = hb_solver.Solver(store, classes, prompt=pf)
         try:
             ok = s.solve(list(req), list(case['field_names']))
+            if again is not None and not ok:
+                # the same Solver is asked again (nothing new, or one more form) after it reported failure
+                run.first_failed = True
+                ok = s.solve(list(again))
+                run.requested = list(req) + [a for a in again if a not in req]
         except Exception as e:
             run.outcome = 'abort'
             run.exc = (type(e).__name__, str(e)[:300])
